@@ -42,7 +42,7 @@ Run ==
             /\ Ev.printed = (~Ev.sc.o /\ Ev.ndays > 0)                 \* an empty range lists nothing
             /\ (Ev.sc.input = "none" /\ Ev.sc.dates = "reversed") => Ev.ndays = 0
             /\ Ev.eq_lib                                               \* the output is the library's result
-       ELSE /\ Ev.exit # 0                                             \* rejected: non-zero exit ...
+       ELSE /\ Ev.exit # 0 /\ Ev.exit # 249                           \* rejected: non-zero exit (249 = the harness killed a hung process) ...
             /\ ~Ev.printed                                            \* ... before anything is written or printed
             /\ Ev.out_state = ExpectedContent(Ev.sc, "out") /\ Ev.params_state = ExpectedContent(Ev.sc, "params")
     /\ Step
